@@ -39,6 +39,9 @@ def law_pairs(r, base, obj, caps, base_vals):
                 Node('concat', (), [Node('filter', (('QP', p1), True), [clone(base)]), Node('filter', (('QP', p1), True), [clone(base)])])))
     out.append(('concat_flatten', Node('concat', (), [clone(base), Node('concat', (), [clone(base), clone(base)])]),
                 Node('concat', (), [clone(base), clone(base), clone(base)])))
+    b2 = r.randint(1, 3)
+    out.append(('unbatch_concat', Node('unbatch', (), [Node('concat', (), [Node('batch', (bsz, False), [clone(base)]), Node('batch', (b2, False), [clone(base)])])]),
+                Node('concat', (), [Node('unbatch', (), [Node('batch', (bsz, False), [clone(base)])]), Node('unbatch', (), [Node('batch', (b2, False), [clone(base)])])])))
     if idx_ok and n >= 1:
         jx = [r.randint(-n, n - 1) for _ in range(r.randint(1, n + 1))]
         ix = [r.randint(-len(jx), len(jx) - 1) for _ in range(r.randint(1, len(jx) + 1))]
